@@ -22,6 +22,8 @@ def ensemble_case(draw, families, forms=("ket1d", "ketcol", "dm"), nmin=2, nmax=
     if fam == "dependent":
         # n kets spanning a subspace of dimension < n
         n = max(n, 3)
+    if fam == "chain":
+        n = 3
     if fam in ("mixed",):
         form = "dm"
     rank = draw(st.integers(1, d)) if fam == "mixed" else 1
@@ -70,6 +72,15 @@ def build_kets_or_dms(case):
         psi = gen.rand_ket(seed // 2 + 1, d, real)
         kets = [np.linalg.matrix_power(u, k) @ psi for k in range(n)]
         kets = [v / np.linalg.norm(v) for v in kets]
+    elif fam == "chain":
+        # consecutive states orthogonal, the first and the last overlapping: u0, u1, (a u0 + b u2), or in dimension 2
+        # v, v_perp, v (seeded change C10-w3 tested orthogonality of neighbouring pairs only)
+        u = gen.rand_unitary(seed, d, real)
+        if d >= 3:
+            a = 0.3 + 0.6 * float(g.random())
+            kets = [u[:, 0].copy(), u[:, 1].copy(), a * u[:, 0] + np.sqrt(1 - a * a) * u[:, 2]]
+        else:
+            kets = [u[:, 0].copy(), u[:, 1].copy(), u[:, 0].copy()]
     elif fam == "mixed":
         dms = [gen.rand_density(int(g.integers(0, 2**62)), d, case["rank"], real or (rf and i == 0)) for i in range(n)]
         if rf:
